@@ -94,6 +94,7 @@ def run(run):
             chains = c15._r1_chains(sub, members)
             c15._r2_conventions(sub, members, chains)
     _common.delegate(run, "C08.R3", "C15", conv, only_rules={"C15.R2"}, note="premise of 'pixels outside the image are undefined'")
+    _common.delegate(run, "C08.R3", "C15", lambda sub: c15.buffer_layouts(sub, "C15.R7"), only_rules={"C15.R7"}, note="premise: a tile holds the image's pixels in their own type")
 
 
 def geometry_premises(sub):
@@ -206,7 +207,8 @@ def _object_states(run, ev):
     for e in r0.events:
         if e.kind == "store" and e.term[1][0][0] == "attr" and e.term[1][0][1] == SELF:
             f0[e.term[1][0][2]] = e.term[1][1]
-    fb = dict(f0)
+    # uses of a property inside what the constructor stored are values of construction time, not of the time after the overrides below
+    fb = dict(derived(f0))
 
     def subst(t):
         if isinstance(t, tuple):
@@ -277,6 +279,7 @@ def _r1_r2(run, ev, label, state):
         init = project.fn(ST + ".StudyTiling.__init__")
         r0 = ev.run(init.node, args={"width": par["width"], "height": par["height"]})
         f0 = {e.term[1][0][2]: e.term[1][1] for e in r0.events if e.kind == "store" and e.term[1][0][0] == "attr" and e.term[1][0][1] == SELF}
+        f0 = _derived(project, ev, f0, NEED_FIELDS)
         want_gx0 = sym.add(f0["_img_gx0"], ("sym", ps[1]))
         want_gy0 = sym.add(f0["_img_gy0"], ("sym", ps[2]))
         want_nw, want_nh, want_lv = ("sym", ps[3]), ("sym", ps[4]), f0["_tile_levels"]
@@ -352,9 +355,16 @@ def _r4_geometry(run, ev, fa, state_b):
             ev0 = sym.make_evaluator(project, ST, [])
             r0 = ev0.run(init.node)
             f0 = {e.term[1][0][2]: e.term[1][1] for e in r0.events if e.kind == "store" and e.term[1][0][0] == "attr" and e.term[1][0][1] == SELF}
+            f0 = _derived(project, ev0, f0, NEED_FIELDS)
             W0, H0 = f0["_width"], f0["_height"]
             want0 = ("call", ("sym", "max"), tuple(sorted((nh(W0), nh(H0)), key=repr)), ())
+            if "_p2n" not in f0:
+                run.undecided("C08.R4", init, None, "_p2n is neither stored by the constructor nor a property computed from the stored fields", kind="geometry-structure-_p2n", field=name)
+                continue
             got, want = f0["_p2n"], want0
+            # next_highest_power_of_2 is monotone: nhp2(max(w, h)) is the same number as max(nhp2(w), nhp2(h))
+            if got == nh(("call", ("sym", "max"), tuple(sorted((W0, H0), key=repr)), ())):
+                got = want
         d = termdiff.diff(got, want)
         if d[0] == "equal":
             run.holds("C08.R4", init, None, "%s = %s" % (name, desc), field=name)
